@@ -501,10 +501,13 @@ class Block:
         for f in self.crossings[0]:
             if isinstance(f, DerivedFactor) and not f.has_complex_window and f in di:
                 l = cast(DerivedLevel, di[f])
-                if all([df in di for df in l.window.factors]):
-                    args = [di[df].name for df in l.window.factors]
-                    if not l.window.predicate(*args):
-                        return True
+                # Levels for factors that are not in `di` are unconstrained, so the
+                # combination is inconsistent only if no choice of those levels works
+                # (which matches how impossible combinations are counted for the crossing size)
+                argss = [([di[df].name] if df in di else [ll.name for ll in df.levels])
+                         for df in l.window.factors]
+                if not any(l.window.predicate(*args) for args in product(*argss)):
+                    return True
         return False
 
     def build_backend_request(self) -> BackendRequest:
